@@ -42,6 +42,12 @@ class Tree:
     def find(self, name, record=BT):
         return [f for f in self.fns if f.name == name and f.record == record]
 
+    @property
+    def by_did(self):
+        if not hasattr(self, "_by_did"):
+            self._by_did = {f.did: f for f in self.fns}
+        return self._by_did
+
     def one(self, name, record=BT):
         r = self.find(name, record)
         if len(r) != 1:
@@ -450,9 +456,27 @@ class Shape:
     """executes a loop-free fragment that manipulates leaf-chain pointers on symbolic nodes; forks on the
     null-ness of pointers that the fragment tests; every other condition forks without knowledge"""
 
-    def __init__(self, fn, alloc_names=("allocate_leaf",)):
+    def __init__(self, fn, alloc_names=("allocate_leaf",), tree=None):
         self.fn = fn
         self.alloc_names = alloc_names
+        self.tree = tree
+        self.depth = 0
+
+    def helper_of(self, s):
+        """a statement that is a call of a private helper of the same class which touches the chain -> callee"""
+        e = strip_casts(s)
+        while e is not None and e["k"] in ("ExprWithCleanups", "ParenExpr"):
+            e = strip_casts(kids(e)[0])
+        if e is None or "callee" not in e or not e.get("member_call") or self.tree is None or self.depth >= 3:
+            return None
+        if not kids(e) or strip_casts(kids(e)[0])["k"] != "This" or e["callee"]["name"] == self.fn.name:
+            return None
+        cal = self.tree.by_did.get(e["callee"]["did"])
+        if cal is None or cal.body is None:
+            return None
+        if not any(x["k"] == "MemberExpr" and x.get("member") in LINKS + OWNERS for x in walk(cal.body)):
+            return None
+        return cal, kids(e)[1:]
 
     def ev(self, e, st):
         e = strip_casts(e)
@@ -615,5 +639,20 @@ class Shape:
             return [st]
         if k in ("WhileStmt", "ForStmt", "DoStmt"):
             return [st]          # loops inside the fragments move elements, never chain pointers (checked by caller)
+        h = self.helper_of(s)
+        if h is not None:
+            cal, actual = h
+            for p, a in zip(cal.params, actual):
+                v = self.ev(a, st)
+                if v is not None or "*" in (p.get("ty") or ""):
+                    st.env[p["did"]] = v if v is not None else "unknown:%s" % p.get("name")
+            self.depth += 1
+            try:
+                out = self.run(kids(cal.body), st)
+            finally:
+                self.depth -= 1
+            for x in out:
+                x.done = False
+            return out
         self.ev(s, st)
         return [st]
